@@ -35,6 +35,9 @@ func init() {
 	mutant(&Mutant{Name: "c11-svg-style-type-becomes-document-default", Property: "C11", File: "svg/svg.go",
 		Old: "\t\t\tif tag == Svg && attr == ContentStyleType {\n", New: "\t\t\tif tag == Svg && attr == ContentStyleType || tag == Style && attr == Type {\n",
 		Rule: "R11.3", Construct: "svg"})
+	mutant(&Mutant{Name: "c11-raw-type-cleared-only-when-used", Property: "C11", File: "html/html.go",
+		Old: "\t\t\t\t\trawTagHash = t.Hash\n\t\t\t\t\trawTagMediatype = nil\n", New: "\t\t\t\t\trawTagHash = t.Hash\n",
+		Rule: "R11.4", Construct: "type cleared on entering"})
 	mutant(&Mutant{Name: "c11-math-error-swallowed", Property: "C11", File: "html/html.go",
 		Old:  "\t\t\tif err := m.MinifyMimetype(mathMimeBytes, w, buffer.NewReader(t.Data), nil); err != nil {\n\t\t\t\tif err != minify.ErrNotExist {\n\t\t\t\t\treturn minify.UpdateErrorPosition(err, z, t.Offset)\n\t\t\t\t}\n\t\t\t\tw.Write(t.Data)\n\t\t\t}\n",
 		New:  "\t\t\tif err := m.MinifyMimetype(mathMimeBytes, w, buffer.NewReader(t.Data), nil); err != nil {\n\t\t\t\tw.Write(t.Data)\n\t\t\t}\n",
@@ -182,6 +185,31 @@ func (c *Ctx) r114() {
 		b, ok := y.Stmt.(*ast.BranchStmt)
 		return y.Kind == flow.KStmt && ok && (b.Tok == token.CONTINUE || b.Tok == token.BREAK)
 	}
+	// the recorded type belongs to one element: entering a raw-text element clears it before any attribute is read
+	nEnter := 0
+	for _, n := range g.Nodes {
+		rhs, ok := assignsTo(n, func(l ast.Expr) bool { return str(l) == "rawTagHash" })
+		if !ok {
+			continue
+		}
+		if k, isK := intConst(info, rhs); isK && k == 0 {
+			continue // leaving the element
+		}
+		nEnter++
+		reset := func(y *flow.Node) bool {
+			r2, ok := assignsTo(y, func(l ast.Expr) bool { return str(l) == "rawTagMediatype" })
+			return ok && isNilExpr(r2)
+		}
+		var mainHead *flow.Node
+		for _, q := range g.Nodes {
+			if as, ok := q.Stmt.(*ast.AssignStmt); ok && q.Kind == flow.KStmt && as.Tok == token.DEFINE && str(as.Lhs[0]) == "t" && strings.Contains(str(as.Rhs[0]), "Shift()") {
+				mainHead = q
+			}
+		}
+		pe := g.Path(flow.Search{From: []*flow.Node{n}, Goal: func(y *flow.Node) bool { return y == start || y == mainHead || y.Kind == flow.KExit }, Avoid: reset})
+		c.R.Check(pe == nil, rule, fmt.Sprintf("html.Minifier.Minify/type cleared on entering a raw-text element #%d", nEnter), c.pos(n.Stmt), "rawTagMediatype = nil before the attributes are read", "a raw-text element is entered without forgetting the type recorded for an earlier one: `<script type=application/ld+json src=x></script><script>var a = 1</script>` sends the second script to the minifier of the first one's type: "+pathStr(c, g, pe))
+	}
+	c.R.Floor(rule, "raw-text element entries", nEnter, 1)
 	p := g.Path(flow.Search{From: []*flow.Node{start}, Goal: goal, Avoid: func(y *flow.Node) bool { return y == rec }, AssumeRaw: raw})
 	c.R.Check(p == nil, rule, construct, c.pos(rec.Stmt), "recorded on every path of a type attribute of a raw-text element",
 		"a type attribute of a script/style element can be skipped (e.g. dropped as a default value) before its value is recorded: the element's content is then sent to the default minifier instead of the one for its declared type: "+pathStr(c, g, p))
